@@ -69,7 +69,8 @@ def run(chk):
     for (i, fl, o, got, sp), sh in zip(suspects, shp):
         name = SHAPES.get(sh)
         r, b, c = pairs[i]
-        if name and fnd.covers(name, {"base": b, "reference": r}): continue
+        # a listed finding excuses a failure only where the frozen model fails in the same way on this very input
+        if name and o == model[i] and fnd.covers(name, {"base": b, "reference": r}): continue
         chk.violation("resolution result differs from RFC 3986 5.2.2: got %s, expected %s" % (show(got), show(sp)),
                       {"request": reqs[i], "base": b, "reference": r, "compat_option": c, "build": fl, "impl": o, "expected_text": show(sp), "shape": name})
     if corr and not chk.violations:
